@@ -816,6 +816,21 @@ def start_action(logger=None, action_type="", _serializers=None, **fields):
         return action
 
 
+def _start_action_with_fields(action_type, fields):
+    """
+    Like L{start_action} with the default logger and no serializers, but the
+    start fields are given as a dictionary, so their names cannot collide
+    with the parameters of L{start_action}.
+    """
+    parent = current_action()
+    if parent is None:
+        action = Action(None, str(uuid4()), TaskLevel(level=[]), action_type)
+    else:
+        action = parent.child(None, action_type)
+    action._start(fields)
+    return action
+
+
 def startTask(logger=None, action_type="", _serializers=None, **fields):
     """
     Like L{action}, but creates a new top-level L{Action} with no parent.
@@ -933,7 +948,9 @@ def log_call(
         if include_args is not None:
             callargs = {k: callargs[k] for k in include_args}
 
-        with start_action(action_type=action_type, **callargs) as ctx:
+        # The arguments are passed as a dictionary, not as keywords, so that
+        # parameters called e.g. "logger" or "action_type" are just fields:
+        with _start_action_with_fields(action_type, callargs) as ctx:
             result = wrapped_function(*args, **kwargs)
             if include_result:
                 ctx.add_success_fields(result=result)
